@@ -21,9 +21,36 @@ AddsRequiredLeafInGroup(s, t, depth) ==
      LET f == t.fields[i] IN
      IF Has(s.fields, f.name) THEN AddsRequiredLeafInGroup(s.fields[IndexOf(s.fields, f.name)], f, depth + 1)
      ELSE depth > 0 /\ IsLeaf(f) /\ f.rep = "req"
-Tag == IF cur # <<>> /\ AddsRequiredLeafInGroup(cur[1], cur[2], 0) THEN "@added-required-leaf-in-group" ELSE ""
+\* the target adds a REPEATED leaf (anywhere) that the source does not have
+RECURSIVE AddsRepeatedLeaf(_, _)
+AddsRepeatedLeaf(s, t) ==
+  ~IsLeaf(t) /\ \E i \in 1..Len(t.fields) :
+     LET f == t.fields[i] IN
+     IF Has(s.fields, f.name) THEN AddsRepeatedLeaf(s.fields[IndexOf(s.fields, f.name)], f)
+     ELSE IsLeaf(f) /\ f.rep = "rep"
+\* inside a group that exists on both sides the target both drops a source field and adds a new one
+RECURSIVE DropsAndAddsInGroup(_, _, _)
+DropsAndAddsInGroup(s, t, depth) ==
+  ~IsLeaf(t) /\
+  \/ depth > 0 /\ (\E i \in 1..Len(s.fields) : ~Has(t.fields, s.fields[i].name)) /\ (\E i \in 1..Len(t.fields) : ~Has(s.fields, t.fields[i].name))
+  \/ \E i \in 1..Len(t.fields) : Has(s.fields, t.fields[i].name)
+                                  /\ DropsAndAddsInGroup(s.fields[IndexOf(s.fields, t.fields[i].name)], t.fields[i], depth + 1)
+\* the target adds a leaf inside a group that exists on both sides
+RECURSIVE AddsLeafInGroup(_, _, _)
+AddsLeafInGroup(s, t, depth) ==
+  ~IsLeaf(t) /\ \E i \in 1..Len(t.fields) :
+     LET f == t.fields[i] IN
+     IF Has(s.fields, f.name) THEN AddsLeafInGroup(s.fields[IndexOf(s.fields, f.name)], f, depth + 1)
+     ELSE depth > 0 /\ IsLeaf(f)
+\* classes are qualified by the shape of the edit and by the API path, so that a recorded finding stays narrow
+Tag == IF cur = <<>> THEN ""
+       ELSE IF AddsRequiredLeafInGroup(cur[1], cur[2], 0) THEN "@added-required-leaf-in-group"
+       ELSE IF AddsRepeatedLeaf(cur[1], cur[2]) THEN "@added-repeated-leaf"
+       ELSE IF DropsAndAddsInGroup(cur[1], cur[2], 0) THEN "@field-dropped-and-field-added-in-group"
+       ELSE IF AddsLeafInGroup(cur[1], cur[2], 0) THEN "@added-leaf-in-group"
+       ELSE ""
 Flag(c0) ==
-  LET c == c0 \o Tag IN
+  LET c == c0 \o Tag \o (IF Tag = "" THEN "" ELSE ":" \o E.path) IN
   /\ bad' = (IF Len(bad) < MaxBad THEN Append(bad, <<E.t, E.i, c>>) ELSE bad)
   /\ cnt' = [cnt EXCEPT !.flagged = @ + 1]
 Init == l = 1 /\ exp = <<>> /\ cur = <<>> /\ bad = <<>> /\ cnt = [traces |-> 0, outs |-> 0, rows |-> 0, flagged |-> 0]
